@@ -59,6 +59,7 @@ var (
 	fReset     = simrt.RegisterCounter("fault_device_reset_to_defaults")
 	fRejoin    = simrt.RegisterCounter("fault_device_rejoin_with_cflist")
 	fArbitrary = simrt.RegisterCounter("fault_device_misprovisioned_set")
+	fForeign   = simrt.RegisterCounter("fault_foreign_block_handed_to_the_apply_function")
 	fMidFlight = simrt.RegisterCounter("fault_operator_change_between_request_and_answer")
 )
 
@@ -433,6 +434,26 @@ func randomSet(r *sim.Rand, max int, m *spec.Plan) []int {
 
 // ------------------------------------------------------------- NS task
 
+// foreignApply hands the band's apply function a block it did not generate
+// itself (a block acknowledged late, built for another region or simply
+// corrupted): an error path of a function the planner's clients call all the
+// time. What it answers is not this property's subject; that the band plans
+// correctly afterwards is.
+func (w *world) foreignApply(r *sim.Rand, dev []int) {
+	simrt.Count(fForeign)
+	n := 1 + r.Intn(3)
+	var pls []lorawan.LinkADRReqPayload
+	for i := 0; i < n; i++ {
+		var p lorawan.LinkADRReqPayload
+		p.Redundancy.ChMaskCntl = uint8(r.Intn(8))
+		for j := range p.ChMask {
+			p.ChMask[j] = r.Intn(2) == 0
+		}
+		pls = append(pls, p)
+	}
+	sim.Guard("panic.apply-foreign", func() { w.b.GetEnabledUplinkChannelIndicesForLinkADRReqPayloads(dev, pls) })
+}
+
 func netServer(w *world, nSteps int, sub uint64) {
 	sim.HB()
 	defer sim.HB()
@@ -445,6 +466,9 @@ func netServer(w *world, nSteps int, sub uint64) {
 		}
 		for k := r.Intn(4); k > 0; k-- {
 			w.bandOp(r)
+		}
+		if r.Intn(8) == 0 {
+			w.foreignApply(r, belief)
 		}
 		// take answers that arrived meanwhile
 		belief = w.collect(belief)
